@@ -166,6 +166,15 @@ func Explore(opt Options, body func(), check func(r *Result) bool) Stats {
 			st.Fatal++
 		}
 
+		if r.Horizon {
+			// the execution was cut at the step horizon (an unbounded wait: spinning, polling): what lies behind the
+			// cut was not explored, the result must not be called exhaustive
+			st.Exhaustive = false
+			if st.CapHit == "" {
+				st.CapHit = "step horizon"
+			}
+		}
+
 		if r.Nondet {
 			Fatalf("NONDETERMINISM: replay of a recorded prefix diverged at step %d\n%s", r.NondetStep, FormatTrace(r))
 		}
